@@ -42,7 +42,7 @@ func (c07) Batches(tier string, seed uint64) []core.Batch {
 func (c07) Mandatory(tier string) []string {
 	return []string{"doc:comment-between-continuations", "doc:crlf-blank-separator", "doc:empty-first-line", "doc:no-final-newline-after-continuation", "doc:dot-line",
 		"doc:tab-marker", "doc:line>=4096-bytes", "doc:free-standing-comment-block", "doc:blank-run>=2", "doc:leading-blank-lines", "doc:zero-paragraphs", "doc:mixed-line-endings", "doc:indented-continuation",
-		"path:Next", "path:All", "path:Unmarshal-slice", "path:Decoder.Decode", "path:Unmarshal-typed-slice", "path:Decoder.Decode-typed", "doc:stream>=36MiB", "reader:string", "reader:onebyte", "reader:half", "reader:chunks", "reader:data+EOF",
+		"path:Next", "path:All", "path:Unmarshal-slice", "path:Decoder.Decode", "path:Unmarshal-typed-slice", "path:Decoder.Decode-typed", "doc:stream>=36MiB", "reader:string", "reader:onebyte", "reader:half", "reader:chunks", "reader:data+EOF", "reader:fails-once-mid-stream",
 		"inv:paragraph-returned"} // ("inv:error-returned" is evidence only: a reader may be as lenient as it likes about malformed lines)
 }
 
@@ -81,6 +81,30 @@ func mkReader(kind, text string, seed uint64) io.Reader {
 		return iotest.DataErrReader(strings.NewReader(text))
 	}
 	return strings.NewReader(text)
+}
+
+// onceFailingReader delivers s[:k], then fails once with a non-EOF error, then delivers the rest.
+type onceFailingReader struct {
+	s      string
+	k, off int
+	failed bool
+}
+
+func (f *onceFailingReader) Read(p []byte) (int, error) {
+	if f.off >= f.k && !f.failed {
+		f.failed = true
+		return 0, errInjectedRead
+	}
+	if f.off >= len(f.s) {
+		return 0, io.EOF
+	}
+	end := len(f.s)
+	if f.off < f.k {
+		end = f.k
+	}
+	n := copy(p, f.s[f.off:end])
+	f.off += n
+	return n, nil
 }
 
 type pWrap struct{ control.Paragraph }
@@ -285,6 +309,52 @@ func (p c07) docCase(c *core.C, d model.Doc, seed uint64) {
 			}
 			c.Cover("path:" + path)
 			c.Cover("reader:" + rk)
+		}
+	}
+	// a source that fails ONCE (a deadline that expired, an interrupted read) after k bytes and then carries on:
+	// the failure must surface, or the result must be the right one - not a line silently split in two
+	if len(text) > 2 {
+		fr := core.NewRand(seed, "c07-transient")
+		for try := 0; try < 3; try++ {
+			k := 1 + fr.Intn(len(text)-1)
+			for _, path := range []string{"Next", "All", "Unmarshal-slice"} {
+				src := &onceFailingReader{s: text, k: k}
+				var got []control.Paragraph
+				var err error
+				switch path {
+				case "Next":
+					var pr *control.ParagraphReader
+					if pr, err = control.NewParagraphReader(src, nil); err == nil {
+						for i := 0; i <= len(text); i++ {
+							var pa *control.Paragraph
+							if pa, err = pr.Next(); err != nil {
+								break
+							}
+							got = append(got, *pa)
+						}
+						if err == io.EOF {
+							err = nil
+						}
+					}
+				case "All":
+					var pr *control.ParagraphReader
+					if pr, err = control.NewParagraphReader(src, nil); err == nil {
+						got, err = pr.All()
+					}
+				default:
+					var ps []pWrap
+					err = control.Unmarshal(&ps, src)
+					for i := range ps {
+						got = append(got, ps[i].Paragraph)
+					}
+				}
+				if err == nil {
+					if diff := diffParas(got, want); diff != "" {
+						c.Failf("%s over a source that failed once after %d of %d bytes reports no error and returns something else than the document: %s\ndocument: %q", path, k, len(text), diff, text)
+					}
+				}
+				c.Cover("reader:fails-once-mid-stream")
+			}
 		}
 	}
 	nontrivial := d.CRLF != 0 || d.NoFinalNL
